@@ -668,10 +668,14 @@ pub const C10: MbSpec = MbSpec {
 fn oper_cfg(s: &mut S, c: &mut CfgSpec, prof: &mut Profile) {
     let n = 1 + s.pick(2);
     for i in 0..n {
-        let mask = match s.pick(5) {
+        let mask = match s.pick(8) {
             0 => Some("*!*@10.0.0.*".to_string()),
             1 => Some(format!("*!*@10.0.0.{}", 1 + s.pick(4))),
             2 => Some("*!*@192.168.*".to_string()),
+            // masks that constrain the nick: what counts is the nick held at the time of OPER
+            3 => Some(format!("n{}!*@*", s.pick(4))),
+            4 => Some("n?!*@10.0.0.*".to_string()),
+            5 => Some(["N0!*@*", "op0!*@*", "*!~u1@*"][s.pick(3)].to_string()),
             _ => None,
         };
         let name = format!("op{}", i);
@@ -783,6 +787,8 @@ fn c15_build(cfg: &[u16]) -> Built {
         (K::NewUser, 5),
         (K::Drop, 3),
         (K::Whowas, 4),
+        (K::Who, 6),
+        (K::Whois, 3),
         (K::CapPost, 2),
     ]);
     c.opers.push(OperSpec { name: "op0".into(), password: "operpw0".into(), mask: None });
@@ -849,7 +855,9 @@ fn c15_owns(d: &Disc, out: &StepOut, t: &Trace) -> bool {
         Disc::Extra { line, .. } if line[0] != "S" => {
             line.iter().skip(2).any(|x| t.renamed_nicks.contains(x)) && ["WALLOPS", "PRIVMSG", "NOTICE", "JOIN", "INVITE", "KICK", "MODE#"].contains(&out.ctx.as_str())
         }
-        _ => about_renamed && ["WALLOPS", "PRIVMSG", "NOTICE", "JOIN", "INVITE", "KICK", "MODE#"].contains(&out.ctx.as_str()),
+        // (WHO / WHOIS by mask: the renamed user is found under its new nick!user@host, and only
+        // under it)
+        _ => about_renamed && ["WALLOPS", "PRIVMSG", "NOTICE", "JOIN", "INVITE", "KICK", "MODE#", "WHO", "WHOIS"].contains(&out.ctx.as_str()),
     }
 }
 
@@ -1156,11 +1164,16 @@ fn c19_build(cfg: &[u16]) -> Built {
     enrich(Built { cfg: c, prof, prelude_users: users, setup: vec![] }, &mut s)
 }
 
-fn c19_owns(d: &Disc, _out: &StepOut, _t: &Trace) -> bool {
+fn c19_owns(d: &Disc, out: &StepOut, _t: &Trace) -> bool {
+    // the commands that move the counters (user MODE, OPER): an announced change that must not
+    // happen (or the reverse), and a handler that aborts in the middle of the bookkeeping
+    let counter_ctx = ["MODEu", "OPER"].contains(&out.ctx.as_str()) && !out.is_probe;
     match d {
         Disc::Missing { line, .. } | Disc::Extra { line, .. } if line[0] == "S" => {
             ["251", "252", "254", "255", "265", "266", "303", "302"].contains(&line[1].as_str())
         }
+        Disc::Missing { line, .. } | Disc::Extra { line, .. } => counter_ctx && line[1] == "MODE" && !line[2].starts_with('#') && !line[2].starts_with('&'),
+        Disc::Panic { .. } | Disc::UnexpectedClose { .. } => counter_ctx,
         _ => false,
     }
 }
